@@ -123,7 +123,13 @@ func (fr *Frame) callAssigns(c *ssa.CallCommon) (map[string]bool, bool) {
 				return out, false
 			}
 			if strings.HasPrefix(m, "Set") {
-				isLib = true
+				for _, mn := range sortedKeys(ex.S.Models) {
+					if md := ex.S.Models[mn]; len(md.Params) > 0 && md.Params[0].Obj && md.Params[0].Name == "o" && !md.Ghost {
+						an, _ := ex.modelArray(mn)
+						out[an] = true
+					}
+				}
+				return out, false
 			}
 		}
 		if isLib {
@@ -331,7 +337,28 @@ func (fr *Frame) call(in ssa.Instruction, c *ssa.CallCommon) []Val {
 			return fr.freshResults(ci.sig, "ret_"+m)
 		}
 		if strings.HasPrefix(m, "Set") {
-			fr.curMem = ex.havocLib(fr.curMem)
+			// a setter changes only the wrapped API object: Go memory, and the abstract rows of the adapter and of its client object
+			nm := fr.curMem.clone()
+			// (Go memory is not havocked: the fields behind the accessor interfaces are read through accessors only — stated assumption)
+			ec := fr.evalCtx(nm, nm)
+			ids := []string{ec.objid(*ci.recv).T}
+			if ct := ex.S.Aliases["clientObj"]; ct != nil {
+				fname := fmt.Sprintf("pf_%s_0", sanitize(shortName(ct.Key)))
+				ex.declFun(fname, "(Iface) Iface")
+				ids = append(ids, ec.objid(Val{T: fmt.Sprintf("(%s %s)", fname, ci.recv.T), S: SIface}).T)
+			}
+			for _, mn := range sortedKeys(ex.S.Models) {
+				md := ex.S.Models[mn]
+				if len(md.Params) == 0 || !(md.Params[0].Obj && md.Params[0].Name == "o") || md.Ghost {
+					continue
+				}
+				an, _ := ex.modelArray(mn)
+				_, rowSort, _ := arraySorts(md.arraySort())
+				for _, id := range ids {
+					ex.memSet(nm, an, fmt.Sprintf("(store %s %s %s)", ex.memGet(nm, an), id, ex.fresh("row_"+mn, rowSort)))
+				}
+			}
+			fr.curMem = nm
 			return fr.freshResults(ci.sig, "ret_"+m)
 		}
 	}
@@ -719,6 +746,17 @@ func (fr *Frame) siteClauses(in ssa.Instruction, c *ssa.CallCommon, display stri
 		ec.names = names
 		ec.at = in
 		ec.goal = true
+		// inside a loop: loopentry(...) and loop-variable names refer to the innermost enclosing loop
+		var best *loopInfo
+		for _, li := range fr.loops {
+			if li.body[in.Block()] && (best == nil || len(li.body) < len(best.body)) {
+				best = li
+			}
+		}
+		if best != nil && best.entryMemForOld != nil {
+			ec.loop = best
+			ec.loopEntry = best.entryMemForOld
+		}
 		if s.Kind == "ghost" {
 			fr.applyGhost(in, s.Ghost, ec)
 			continue
